@@ -206,7 +206,7 @@ fn scheme_from_name(s: &str) -> u8 {
 // ================================================================== C07
 
 const LENGTHS: [usize; 20] = [1, 2, 3, 4, 5, 7, 8, 63, 64, 65, 255, 256, 257, 4095, 4096, 4097, 65535, 65536, 131071, 131072];
-const CLASS_NAMES: [&str; 6] = ["zeros", "noise", "ramp", "f32", "f16", "period4"];
+const CLASS_NAMES: [&str; 8] = ["zeros", "noise", "ramp", "f32", "f16", "period4", "text", "period3"];
 
 fn gen_chunk(len: usize, class: usize, salt: u64) -> Vec<u8> {
     let mut v = Vec::with_capacity(len + 4);
@@ -232,6 +232,29 @@ fn gen_chunk(len: usize, class: usize, salt: u64) -> Vec<u8> {
             while v.len() < len {
                 v.push(l.byte());
                 v.push(0x38 + ((i / 64) % 4) as u8);
+                i += 1;
+            }
+            v.truncate(len);
+        },
+        6 => {
+            // text-like: words from a small vocabulary (byte-level repetition at distances that are not
+            // multiples of 4: plain LZ4 compresses it, byte grouping does not help)
+            const WORDS: [&str; 12] = ["the", "chunk", "hash", "xorb", "of", "a", "shard", "merkle", "is", "stored", "in", "and"];
+            let mut l = Lcg::new(0x7E87 + len as u64 + salt);
+            while v.len() < len {
+                v.extend_from_slice(WORDS[(l.next_u64() % 12) as usize].as_bytes());
+                v.push(b' ');
+            }
+            v.truncate(len);
+        },
+        7 => {
+            // period-3 records: counter, noise nibble, constant (structure at an odd distance)
+            let mut l = Lcg::new(0x9E3 + len as u64 + salt);
+            let mut i = 0usize;
+            while v.len() < len {
+                v.push((i as u64 + salt) as u8);
+                v.push(l.byte() & 0x0f);
+                v.push(0x41);
                 i += 1;
             }
             v.truncate(len);
@@ -763,12 +786,12 @@ fn c07(args: &Args) {
     if LENGTHS.iter().any(|l| *l > max_chunk) {
         machinery_error("chunk alphabet exceeds MAXIMUM_CHUNK_SIZE");
     }
-    let classes: Vec<usize> = (0..6).collect();
+    let classes: Vec<usize> = (0..8).collect();
     let full = alphabet(&LENGTHS, &classes);
     // lists of <= 2 chunks: the full alphabet in both tiers
     let pair_lengths: Vec<usize> = LENGTHS.to_vec();
     let red_lengths: Vec<usize> = tier.pick(vec![1, 3, 4, 5, 64, 257, 4097], vec![1, 2, 3, 4, 5, 8, 64, 257, 4097]);
-    let red_classes: Vec<usize> = tier.pick(vec![0, 1, 3, 5], vec![0, 1, 3, 4, 5]);
+    let red_classes: Vec<usize> = tier.pick(vec![0, 1, 3, 5, 6], vec![0, 1, 3, 4, 5, 6, 7]);
     let reduced = alphabet(&red_lengths, &red_classes);
     let four_lengths: Vec<usize> = tier.pick(vec![1, 4, 5, 257], vec![1, 4, 5, 64, 257]);
     let four_classes: Vec<usize> = tier.pick(vec![0, 1, 3], vec![0, 1, 3, 5]);
